@@ -58,7 +58,8 @@ CHECKS["C08"] = {
 CHECKS["C09"] = {
     "level": "exploration",
     "subs": [
-        _sub("TestC09_Vacuum", 1600, 40000, sq=16, st=16),
+        _sub("TestC09_Vacuum", 1600, 40000, sq=14, st=14),
+        _sub("TestC09_KVContentReturns", 1500, 60000, sq=2, st=2),
     ],
 }
 CHECKS["C10"] = {
@@ -151,7 +152,8 @@ CHECKS["C19"] = {
     "subs": [
         _sub("TestC19_Threads", 640, 24000, sq=8, st=8),
         # one case per process, several processes one after another per shard
-        _sub("TestC19_FirstUse", 8, 8, sq=8, st=8, waves={"quick": 3, "thorough": 64}),
+        _sub("TestC19_FirstUse", 8, 8, sq=6, st=6, waves={"quick": 4, "thorough": 80}),
+        _sub("TestC19_Sequential", 400, 16000, sq=2, st=2),
     ],
     "watchdog": {"quick": 900, "thorough": 7200},
 }
